@@ -150,9 +150,13 @@ COEF_POOL = ["harmonic 350.0 1.09", "  12.5   3.4 ", "cosine/periodic  72.500283
              "table " + " ".join("p%02d=%d" % (i, i * i) for i in range(16)) + " # " + "-".join("seg%d" % i for i in range(8))]
 
 
-def gen_struct(rng, k):
-    n = rng.randint(1, 10)
+def gen_struct(rng, k, n=None):
+    n = n or rng.randint(1, 10)
     nt = rng.randint(1, 4)
+    many = (k % 10 == 3)          # ten and more types of every kind: type ids with two digits
+    if many:
+        n = max(n, 14)
+        nt = rng.randint(10, 13)
     ckind = ["ortho", "tilted", "tilted-neg", "none", "ortho", "yz-only", "xy-only", "xz-only", "tiny-tilt", "two-tilts"][k % 10]
     L = [rng.randrange(8 * D, 40 * D) for _ in range(3)]
     if ckind == "tiny-tilt":
@@ -183,16 +187,21 @@ def gen_struct(rng, k):
         cell = [(L[0], 0, 0), (xy, L[1], 0), (xz, yz, L[2])]
     masses = [rng.choice([int(12.0107 * D), int(1.00794 * D), int(15.9994 * D), int(91.224 * D), rng.randrange(D, 200 * D)]) for _ in range(nt)]
     st = dict(pos=[tuple(rng.randrange(-20 * D, 60 * D) for _ in range(3)) for _ in range(n)], typ=[rng.randrange(nt) for _ in range(n)],
-              chg=[rng.randrange(-3 * D, 3 * D) for _ in range(n)], grp=[rng.randrange(0, 4) for _ in range(n)], xl=[], xf=[[] for _ in range(n)],
-              t_el=["E%d" % i for i in range(nt)], t_mass=masses, t_lab=[rng.choice(["C_R", "H_", "O_3", "Zr3+4", "lab%d" % i, "x"]) + str(i) for i in range(nt)],
+              chg=[rng.randrange(-3 * D, 3 * D) for _ in range(n)], grp=[rng.randrange(1 if k % 4 == 2 else 0, 4) for _ in range(n)], xl=[], xf=[[] for _ in range(n)],
+              t_el=["E%d" % i for i in range(nt)], t_mass=masses, t_lab=[rng.choice(["C_R", "H_", "O_3", "Zr3+4", "lab%d" % i, "x", "a_rather_long_force_field_type_label_"]) + str(i) for i in range(nt)],
               t_pair=([rng.choice(COEF_POOL) for _ in range(nt)] if rng.random() < 0.6 else []), cell=cell)
     for kname, t_, c_, x_, l_, ar in KINDS:
-        m = rng.randint(0, 4) if n >= ar else 0
+        m = (rng.randint(0, 4) if n < 50 else rng.randint(n // 4, n // 2)) if n >= ar else 0
         tups = [tuple(rng.sample(range(n), ar)) for _ in range(m)]
         ntyp = rng.randint(1, 4)
         # coefficient tables: none, exactly the types in use, or more than the highest type in use
         mode = rng.choice(["none", "exact", "more"])
         typ = [rng.randrange(ntyp) for _ in tups]
+        if many and n >= ar:
+            ntyp = rng.randint(10, 13)
+            tups = [tuple(rng.sample(range(n), ar)) for _ in range(ntyp + 2)]
+            typ = list(range(ntyp)) + [rng.randrange(ntyp) for _ in range(2)]
+            mode = "exact"
         if mode == "none":
             coef = []
         elif mode == "exact":
@@ -222,6 +231,9 @@ def main(tier, seed, replay=None):
             for k in range(n):
                 st, ck = gen_struct(run.rng, k)
                 cases.append((st, ["full", "atomic"][k % 2], ck))
+            for k in range(2 if tier == "quick" else 8):      # a few hundred atoms and terms: size-dependent code paths
+                st, ck = gen_struct(run.rng, 1 + 5 * k, n=run.rng.randint(250, 500))
+                cases.append((st, ["full", "atomic"][k % 2], ck + "-large"))
         ids = {}
 
         def I(key):
